@@ -23,7 +23,7 @@ class OpaqueCall:
 
 def encode_arg(st, v):
     """Encode an argument value as a list of z3 terms (for uninterpreted-function application)."""
-    if isinstance(v, SOpt):
+    if isinstance(v, (SOpt, V.SCases)):
         v = st.force(v)  # forks only when both cases are possible; canonical encoding either way
     if v is None:
         return [z3.IntVal(-7777)]
@@ -100,6 +100,11 @@ def uf_shape_value(st, base, args, shape):
             o = SObj(shp.cls, {k: mk(s, f"{path}.{k}", args) for k, s in shp.fields.items()}, base_list=shp.base_list)
             o.shape = shp
             return o
+        if isinstance(shp, S.Union):
+            alts = shp.cases()
+            t = z3.Function(f"{base}{path}#tag", *dom, z3.IntSort())(*args)
+            (V.cur() if V._current else st).assume(z3.And(t >= 0, t < len(alts)))
+            return V.SCases([(t == k, mk(a, f"{path}|{k}", args)) for k, a in enumerate(alts)])
         if isinstance(shp, S.ListOf):
             from .seqs import LRef, SSeq
 
@@ -107,7 +112,28 @@ def uf_shape_value(st, base, args, shape):
             st.assume(n >= shp.min_len)
             if shp.max_len is not None:
                 st.assume(n <= shp.max_len)
-            seq = SSeq(mk_int(n), lambda i, shp=shp, path=path, args=args: mk(shp.elem, path + "[]", list(args) + [V._z(i)]), shp.elem, None, f"{base}{path}")
+            getter = lambda i, shp=shp, path=path, args=args: mk(shp.elem, path + "[]", list(args) + [V._z(i)])  # noqa: E731
+            psum = None
+            if isinstance(shp.elem, S._Int):
+                # prefix-sum model field of an integer list, as for fresh sequences (seqs.fresh_seq): the
+                # defining equation is instantiated at every index that is read
+                ps = z3.Function(f"{base}{path}#psum", *dom, z3.IntSort(), z3.IntSort())
+                inner_get, lo = getter, shp.elem.lo
+
+                def getter(i, ps=ps, inner_get=inner_get, args=args):  # noqa: F811
+                    v = inner_get(i)
+                    zi = V._z(i)
+                    V.cur().assume(ps(*args, zi + 1) == ps(*args, zi) + V._z(v))
+                    return v
+
+                def psum(k, ps=ps, lo=lo, args=args):
+                    s_ = V.cur()
+                    s_.assume(ps(*args, z3.IntVal(0)) == 0)
+                    if lo is not None and lo >= 0:
+                        s_.assume(ps(*args, V._z(k)) >= 0)
+                    return mk_int(ps(*args, V._z(k)))
+
+            seq = SSeq(mk_int(n), getter, shp.elem, psum, f"{base}{path}")
             return seq if shp.tuple_ else LRef(seq)
         raise Unsupported(f"uninterpreted result of shape {shp!r}")
 
@@ -147,6 +173,7 @@ class Protocol:
         """The value a call would return, without logging it in the ghost call trace or bumping versions."""
         m = self.methods[name]
         vals = {**m.defaults, **vals}
+        vals = {k: (st.force(v) if isinstance(v, V.SCases) else v) for k, v in vals.items()}
         terms = []
         for p in m.params:
             terms.extend(encode_arg(st, vals[p]))
@@ -204,6 +231,8 @@ class Protocol:
         for p in m.params:
             if p not in vals:
                 raise PyRaise(SExc(TypeError, (f"{name}: missing argument {p}",)))
+        # a size argument of unknown arity is case-split here: (), (c,), (c, r)
+        vals = {k: (st.force(v) if isinstance(v, V.SCases) else v) for k, v in vals.items()}
         if m.raises_any:
             classes = m.raises_any if isinstance(m.raises_any, tuple) else ((m.raises_any,) if isinstance(m.raises_any, type) else (Exception,))
             k = st.fork(len(classes) + 1)
